@@ -32,7 +32,12 @@ HYPH_LISTS = ["en-us-g1.ctb,hyph_en_US.dic", "da-dk-g26.ctb", "de-g2.ctb", "de-g
               "ru-litbrl.ctb,hyph_ru.dic", "pl-pl-comp8.ctb,hyph_pl_PL.dic", "cs-g1.ctb,hyph_cs_CZ.dic"]
 
 
-def fault_sig(f):
+def fault_sig(f, op=""):
+    if f["kind"] == "ubsan" and f["frame"].endswith(":addRule") and "out of bounds" in f.get("detail", ""):
+        # the declared bound of TranslationTableRule.charsdots (finding F18): identified by the table being compiled
+        import os
+        tbl = os.path.basename(op.split(" ")[1].split(",")[0]) if len(op.split(" ")) > 1 else "?"
+        return "C02:ubsan:addRule:charsdots-bound:%s" % tbl
     return "C02:%s:%s:%s" % (f["kind"], f["frame"], f.get("detail", "")[:40])
 
 
@@ -99,7 +104,7 @@ def run(tier):
     # conversions with exact-size arrays
     conv_cases = []
     for ti, t in enumerate(tables[: (16 if tier == "quick" else len(tables))] + corpus.display_tables()[: (6 if tier == "quick" else 40)]):
-        ops = []
+        ops = ["CHK %s" % corpus.tpath(t)]       # a table that does not compile (e.g. needs UCS-4) is not a valid table
         for _ in range(8):
             L = rng.choice([0, 1, 2, 7, 40])
             ops.append("C2D %s %d %s" % (corpus.tpath(t), rng.choice([0, 64]), common.wide([rng.randint(0, 0xffff) for _ in range(L)])))
@@ -176,13 +181,14 @@ def run(tier):
             nfault += 1
             i = c.fault.get("op_index", 0)
             op = c.ops[i] if 0 <= i < len(c.ops) else "?"
-            v.violation(fault_sig(c.fault), "%s in %s while executing: %s" % (c.fault["kind"], c.fault["frame"], op[:300]),
+            v.violation(fault_sig(c.fault, op), "%s in %s while executing: %s" % (c.fault["kind"], c.fault["frame"], op[:300]),
                         {"script": c.setup + c.ops[: i + 1], "fault": {k: c.fault[k] for k in c.fault if k != "stderr_tail"},
                          "stderr_tail": c.fault.get("stderr_tail", "")[-1200:]})
     # exact-length clauses of the conversions and of lou_hyphenate
     nconv = nhyp = 0
     for c in conv_cases:
-        for op, o in zip(c.ops, c.out):
+        loads = bool(c.out) and c.out[0].startswith("C 1")
+        for op, o in zip(c.ops[1:], c.out[1:]):
             t = op.split(" ")
             L = len(common.unwide(t[3]))
             if o.startswith("V 1 "):
@@ -191,7 +197,7 @@ def run(tier):
                 if len(got) != L or 0xeeee in got and L and False:
                     v.violation("C02:conv:length", "conversion wrote %d of %d elements: %s" % (len(got), L, op[:200]), {"script": [op], "result": o})
                 v._distinct.add(("conv", t[1], t[2], t[3][:40]))
-            elif o.startswith("V 0") and L > 0:
+            elif o.startswith("V 0") and L > 0 and loads:
                 v.violation("C02:conv:ret0", "conversion returned 0 on a valid table and positive length: %s" % op[:200], {"script": [op], "result": o})
             v.cov["evaluations"] += 1
     for c in hyp_cases:
